@@ -14,6 +14,7 @@ import (
 	"runtime"
 	"sync"
 	"syscall"
+	"time"
 
 	libaudit "github.com/elastic/go-libaudit/v2"
 )
@@ -70,6 +71,7 @@ type Event struct {
 }
 
 type Sim struct {
+	RecvDelay time.Duration // every Receive call takes this long
 	mu        sync.Mutex
 	seq       uint32
 	plans     []Plan
@@ -149,6 +151,10 @@ func (s *Sim) Send(msg syscall.NetlinkMessage) (uint32, error) {
 }
 
 func (s *Sim) Receive(nonBlocking bool, p libaudit.NetlinkParser) ([]syscall.NetlinkMessage, error) {
+	if s.RecvDelay > 0 {
+		// a receive call that takes its time (a loaded machine, a stopped and continued process)
+		time.Sleep(s.RecvDelay)
+	}
 	s.mu.Lock()
 	defer s.mu.Unlock()
 	if len(s.Queue) == 0 {
